@@ -705,3 +705,40 @@ Proof. exists [SetItem true k_x 1; DelItem true k_x]. vm_compute. split; reflexi
 Lemma orig_ident_refuted :
   exists k v, ident_pub true k = false /\ snd (step_orig (init (Some 0)) (SetItem true k v)) = ROk.
 Proof. exists k_xnl, 1. vm_compute. split; reflexivity. Qed.
+
+(* ------------------------------------------------- the store's own .time share *)
+Definition time_inv (s : st) : Prop :=
+  stamp (shT s) = sstamp s /\
+  fl (shT s) = [(value_key, Some (match sstamp s with Some t => t | None => 0 end))] /\ deck (shT s) = [].
+
+Lemma set_sh_keeps_time w x s : shT (set_sh w x s) = shT s /\ sstamp (set_sh w x s) = sstamp s.
+Proof. destruct w; split; reflexivity. Qed.
+
+Lemma time_inv_step s o : time_inv s -> time_inv (fst (step s o)).
+Proof.
+  intros (H1 & H2 & H3). unfold time_inv.
+  assert (Hset : forall w x, time_inv (set_sh w x s)).
+  { intros w x. unfold time_inv. destruct (set_sh_keeps_time w x s) as [-> ->]. repeat split; assumption. }
+  destruct o; unfold step; cbn [step_gen]; try (repeat split; assumption).
+  - destruct (setattr true value_key v (fl (sh w s))); cbn [fst]; [apply Hset|repeat split; assumption].
+  - destruct (set_all true kvs (fl (sh w s))) as [f ok]. destruct ok; cbn [fst]; apply Hset.
+  - destruct (set_all true kvs (fl (sh w s))) as [f ok]. cbn [fst]; apply Hset.
+  - destruct (create_all true kvs (fl (sh w s)) false) as [[f upd] ok]. destruct ok; cbn [fst]; apply Hset.
+  - cbn [fst]. apply Hset.
+  - destruct (setattr true k v (fl (sh w s))); cbn [fst]; [apply Hset|repeat split; assumption].
+  - destruct (delattr true k (fl (sh w s))); cbn [fst]; [apply Hset|repeat split; assumption].
+  - cbn [fst]. apply Hset.
+  - destruct (deck (sh w s)); cbn [fst]; [repeat split; assumption|apply Hset].
+  - destruct e; cbn [fst]; [apply Hset|repeat split; assumption].
+  - destruct (deck (sh w s)); cbn [fst]; [repeat split; assumption|apply Hset].
+  - destruct (sstamp s) as [t|] eqn:Et; cbn [fst]; [|rewrite Et; repeat split; assumption].
+    cbn [shT sstamp]. unfold tick. rewrite H2. cbn. repeat split. exact H3.
+  - cbn [fst shT sstamp]. unfold tick. rewrite H2. cbn. repeat split. exact H3.
+Qed.
+
+Lemma time_inv_run t0 ops : time_inv (run t0 ops).
+Proof.
+  unfold run. assert (H : forall s, time_inv s -> time_inv (run_from s ops)).
+  { induction ops as [|o ops IH]; intros s Hs; [exact Hs|]. cbn. apply IH. apply time_inv_step. exact Hs. }
+  apply H. unfold time_inv. cbn. repeat split.
+Qed.
